@@ -48,6 +48,32 @@ Theorem C06_model_is_source_chunk_holder : forall (scorer : scorer_t) (s : scree
 Proof. exact src_score_chunk_chunk_holder. Qed.
 Print Assumptions C06_model_is_source_chunk_holder.
 
+(* ChunkedScoresHolder's methods, translated with its two numpy arrays as lists: a model holder h is represented by
+   holder_arrays h = (scores, plate_ids, current_index) = (map snd slots, map fst slots, current index);
+   `a[i] = v` past the end, argmin of an empty array and the ValueError of concat come from the translation /
+   the primitives; the declared size is not touched by these methods *)
+Theorem C06_model_is_source_add_score : forall (h : holder) (pid sc : Z),
+  src_add_score (map snd (h_slots h)) (map fst (h_slots h)) (Z.of_nat (h_cur h)) pid sc
+  = dor h' <- add_score h pid sc; Ok (holder_arrays h').
+Proof. exact src_add_score_is_model. Qed.
+Print Assumptions C06_model_is_source_add_score.
+
+Theorem C06_model_is_source_combine : forall (a b : holder),
+  src_combine (map snd (h_slots a)) (map fst (h_slots a)) (Z.of_nat (h_cur a))
+              (map snd (h_slots b)) (map fst (h_slots b))
+  = Ok (holder_arrays (h_combine a b)).
+Proof. exact src_combine_is_model. Qed.
+Print Assumptions C06_model_is_source_combine.
+
+Theorem C06_model_is_source_plate_id_with_minimum_score : forall (h : holder) (eligible : option (list Z)),
+  src_plate_id_with_minimum_score (map snd (h_slots h)) (map fst (h_slots h)) eligible = min_plate h eligible.
+Proof. exact src_plate_id_with_minimum_score_is_model. Qed.
+Print Assumptions C06_model_is_source_plate_id_with_minimum_score.
+
+Theorem C06_model_is_source_concat : forall hs : list holder, src_concat hs = h_concat hs.
+Proof. exact src_concat_is_model. Qed.
+Print Assumptions C06_model_is_source_concat.
+
 (* ---- np.array_split ---- *)
 Theorem C06_array_split_concat : forall (A : Type) (l : list A) (n : nat),
   (0 < n)%nat -> concat (array_split l n) = l.
